@@ -1,5 +1,6 @@
 """C10 - printed schemas re-parse to the same module"""
 from props import comps_ytext as Y
+from props import comps_ymod as YM
 
 PID = "C10"
 LEVEL = "proof"
@@ -10,7 +11,7 @@ def components():
 
 
 def oracles_():
-    return [Y.YModRT()]
+    return [Y.YModRT(), YM.ModuleRT()]
 
 
 MANIFEST = {
@@ -20,11 +21,21 @@ MANIFEST = {
             "newline and, in the single-line layout, after a newline are covered since the printer escapes such a newline, "
             "C10_yang_text_roundtrip_trailing_ws_fixed / _singleline_indent_fixed), for single-quoted printing for every "
             "string without a newline; each remaining hypothesis has a refutation witness (_cr_refuted, "
-            "_squote_newline_refuted, _print_fixpoint_cr_refuted, _char_plane4_refuted); print is a fixpoint under the same "
+            "_squote_newline_refuted, _print_fixpoint_cr_refuted); the lexer's character rule is the RFC 7950 yang-char rule "
+            "(C10_yang_char_spec, _plane4_regression since f25b870); print is a fixpoint under the same "
             "hypotheses (C10_yang_text_print_fixpoint_partial). Tie: extracted model vs the static C functions (T2). "
             "Whole-module print/parse/print of description, units, presence and (double- or single-quoted) default "
-            "arguments is checked by the API oracle (search).",
+            "arguments is checked by the API oracle ymod (search). Module level (search, oracle modrt, comps_ymod.py + "
+            "impl/t_ymod.c): generated whole modules with a submodule (every statement of RFC 7950 section 7 with its "
+            "substatements in shuffled order, extension instances under every statement kind, adversarial strings and source "
+            "spellings in every string-valued statement), the structured sets of C11, data-oriented modules and the real "
+            "modules of the repository go, per feature set, through: YANG print -> fresh context -> accepted, identical compiled "
+            "print, identical second YANG and YIN print; YIN print -> fresh context -> accepted, identical compiled and YIN "
+            "print, YANG print equal as a token sequence; submodule prints likewise; the only imported (parsed, not compiled) "
+            "module likewise; compiled and tree prints identical when printed twice and from two contexts.",
     "note": "Modelled C: ypr_encode, ypr_text, ypr_text_squote_line, read_qstring via get_argument, buf_store_char. Statement-level "
-            "printers (printer_yang.c/printer_yin.c bodies, extension instances) are only reached by the oracle.",
+            "printers (printer_yang.c/printer_yin.c bodies, extension instances) and the YIN parser are only reached by the "
+            "oracles. The module generator does not write the constructs of the findings listed in known_findings.d/ymod.json "
+            "(each is replayed from its witness in corpus/ymod-findings.txt; YMOD_NO_AVOID=<tag,..|all> generates them again).",
     "technique": "Coq proof (printer/lexer round trip) + differential correspondence + module round-trip oracle",
 }
